@@ -111,7 +111,7 @@ func runOne(prop, tier string, cf cfgT) (rep *core.Report) {
 	}
 	rep.Count("packages", len(p.Pkgs))
 	rep.Count("functions", len(p.Funcs))
-	ctx := &props.Ctx{P: p, R: rep, Tier: tier}
+	ctx := props.NewCtx(p, rep, tier)
 	props.Registry[prop](ctx)
 	return rep
 }
